@@ -44,7 +44,7 @@ def run(run):
     s5 = 1 / math.sqrt(5)
     # sphere points: uniform, near edges (between two centres), near vertices (three centres), at centres, on symmetry lines
     pts = []
-    n = 2500 if quick else 300000
+    n = run.n(2500, 300000)
     for _ in range(n):
         m = rng.random()
         if m < 0.4:
@@ -116,7 +116,7 @@ def run(run):
             run.nontrivial.add(q)
     # planar points inside the face pentagon x 12 faces: inverse then forward
     preq, pmeta = [], []
-    for _ in range(1500 if quick else 150000):
+    for _ in range(run.n(1500, 150000)):
         while True:
             x, y = rng.uniform(-rvert, rvert), rng.uniform(-rvert, rvert)
             if inside(face, x, y):
